@@ -423,6 +423,16 @@ func genC12(dir, tier string, seed int64) {
 						}
 					}
 				}
+				// raw payloads that are too long by whole ZERO elements, up to the next multiple of 8 bytes and beyond
+				if enc == "raw" && rep%3 == 0 {
+					for _, extra := range []int{1, 2, 3, 7} {
+						pad := append(append([]byte{}, raw...), make([]byte, extra*ti.width)...)
+						for len(pad)%8 != 0 && extra == 7 {
+							pad = append(pad, 0)
+						}
+						emit(mk(vals, pad, dims), "raw-long-zero-elements")
+					}
+				}
 				// malformed dims
 				if len(dims) > 0 && rep%2 == 0 {
 					bad := append([]int64{}, dims...)
